@@ -27,11 +27,14 @@ pub struct GenCfg {
   pub fuel_in_base_case: bool,
   pub effects_in_rec_call_args: bool,
   pub derived_induction_args: bool,
+  pub neg_division: bool,
+  pub single_field_struct_payload: bool,
+  pub possibly_zero_divisor: bool,
 }
 
 impl Default for GenCfg {
   fn default() -> Self {
-    GenCfg { max_classes: 5, max_depth: 4, node_budget: 220, string_escapes: false, non_ascii_strings: false, wide_vec_ints: false, unboxable_recursive_enum: true, param_swap_tail_calls: true, big_ints: true, single_variant_pointer_enum: true, rec_call_in_short_circuit: true, tuple_typed_field: true, lambda_this_in_generic_class: true, lambda_this_in_enum_class: true, fn_typed_field_in_generic_class: true, fuel_in_base_case: true, effects_in_rec_call_args: true, derived_induction_args: true }
+    GenCfg { max_classes: 5, max_depth: 4, node_budget: 220, string_escapes: false, non_ascii_strings: false, wide_vec_ints: false, unboxable_recursive_enum: true, param_swap_tail_calls: true, big_ints: true, single_variant_pointer_enum: true, rec_call_in_short_circuit: true, tuple_typed_field: true, lambda_this_in_generic_class: true, lambda_this_in_enum_class: true, fn_typed_field_in_generic_class: true, fuel_in_base_case: true, effects_in_rec_call_args: true, derived_induction_args: true, neg_division: true, single_field_struct_payload: true, possibly_zero_divisor: true }
   }
 }
 
@@ -391,7 +394,18 @@ impl<'t> Gen<'t> {
     // recorded finding: an unboxed payload whose own representation can be a small integer (an enum with
     // 0-ary variants, incl. the enum itself) collides with the 0-ary variants of the outer enum
     let enums_ok = self.cfg.unboxable_recursive_enum;
-    let structs: Vec<ClassSig> = self.classes.iter().filter(|c| matches!(c.typedef, TypeDef::Struct(_)) || (enums_ok && matches!(c.typedef, TypeDef::Enum(_)))).cloned().collect();
+    // recorded finding (C04): the TypeScript backend compares enum tags with `==`, and `[1] == 1` holds in JavaScript
+    let single_ok = self.cfg.single_field_struct_payload;
+    let structs: Vec<ClassSig> = self
+      .classes
+      .iter()
+      .filter(|c| match &c.typedef {
+        TypeDef::Struct(fs) => single_ok || fs.len() != 1,
+        TypeDef::Enum(_) => enums_ok,
+        TypeDef::None => false,
+      })
+      .cloned()
+      .collect();
     match self.t.weighted(&[if structs.is_empty() { 0 } else { 6 }, 2, 2, 1]) {
       0 => {
         let c = structs[self.t.choose(structs.len())].clone();
@@ -1021,9 +1035,18 @@ impl<'t> Gen<'t> {
         6 => self.cmp_call(cx).unwrap_or_else(|| self.leaf(ty, cx)),
         1 => {
           let op = ["+", "-", "*", "/", "%"][self.t.weighted(&[5, 4, 3, 2, 2])];
+          // recorded finding (C04): the TypeScript backend floors the quotient, WebAssembly truncates it
+          if op == "/" && !self.cfg.neg_division {
+            let a = [0, 1, 7, 100, 1000, 65536, 2147483647][self.t.choose(7)];
+            let b = [1, 2, 3, 7, 10][self.t.choose(5)];
+            let mk = |g: &mut Self, v: i32| if g.t.bool(1, 2) { Expr::new(Ty::Int, EK::OpaqueInt(v)) } else { Expr::new(Ty::Int, EK::Int(v)) };
+            let (ea, eb) = (mk(self, a), mk(self, b));
+            return Expr::new(Ty::Int, EK::Binary("/", Box::new(ea), Box::new(eb)));
+          }
           let a = self.expr(&Ty::Int, cx, d);
           let b = if op == "/" || op == "%" {
-            if self.t.bool(3, 4) {
+            // recorded finding: a division whose divisor may be zero is hoisted out of its guard and traps
+            if self.t.bool(3, 4) || !self.cfg.possibly_zero_divisor {
               let v = [1, 2, 3, 7, -1, -2, -3, 10][self.t.choose(8)];
               if self.t.bool(1, 2) { Expr::new(Ty::Int, EK::OpaqueInt(v)) } else { Expr::new(Ty::Int, EK::Int(v)) }
             } else {
